@@ -620,6 +620,12 @@ func runReplay(opt Options, file string, body func(c *Ctx)) int {
 	}
 	for _, v := range c.res.Violations {
 		fmt.Printf("replay: reproduced key=%s what=%s\n", v.Key, v.What)
+		if wb, err := json.MarshalIndent(v.Witness, "", " "); err == nil {
+			if len(wb) > 6000 {
+				wb = wb[:6000]
+			}
+			fmt.Printf("witness: %s\n", wb)
+		}
 	}
 	fmt.Printf("VIOLATION property=%s replay=%s\n", opt.Property, file)
 	return 1
